@@ -493,10 +493,23 @@ Section Round.
   (* C12 round trip, on the property predicate: for EVERY value of every type
      (well-formed or not, colliding custom keys or not) the model's answer
      satisfies the predicate *)
+  Lemma spec_model_round_from ty vals claims vs cl :
+    decode_o o (schema_of ty) (JObj (encode_T ty vals claims)) = Ok (vs, cl) ->
+    fields_from o (schema_of ty) vs (encode_T ty vals claims) = true.
+  Proof.
+    unfold decode_o, decode. intros H.
+    destruct (mapM _ (schema_of ty)) as [r | |] eqn:Em; try discriminate. cbn in H. inversion H; subst.
+    apply fields_from_dec, Em.
+  Qed.
+
   Theorem spec_model_round ty vals claims :
     spec (IRound ty vals claims o) (model (IRound ty vals claims o)) = true.
   Proof.
-    cbn [model spec]. unfold spec_round.
+    cbn [model spec]. apply andb_true_iff. split.
+    2:{ destruct (decode_o o (schema_of ty) (JObj (encode_T ty vals claims))) as [[vs cl] | |] eqn:Ed;
+          cbn [res_opt]; try reflexivity.
+        rewrite (spec_model_round_from _ _ _ _ _ Ed). apply orb_true_r. }
+    unfold spec_round.
     destruct (rt_guard o (schema_of ty) vals claims) eqn:Hg; [| reflexivity].
     unfold rt_guard in Hg. apply andb_true_iff in Hg as [Hg _]. apply andb_true_iff in Hg as [Hwf _].
     set (sch := schema_of ty) in *. unfold encode_T. fold sch.
